@@ -102,7 +102,9 @@ pub enum Op {
     /// user code that panics: `steps` run, then a panic unwinds through whatever guards and local
     /// spans the steps left open (they are dropped in reverse order while the thread is
     /// panicking) and is caught by the caller, e.g. a request handler under `catch_unwind`
-    Unwind { steps: Vec<Op> },
+    /// `drops`: spans created by the steps that live on the unwinding stack too; they are dropped
+    /// (finished) by the unwinding after the guards, latest first
+    Unwind { steps: Vec<Op>, drops: Vec<u32> },
     /// `set_reporter` once more with the same reporter and configuration (an application that
     /// re-initialises tracing); the library starts a fresh collector, whose background thread
     /// runs one cycle at once. Only used by templates whose oracle looks at retained state.
@@ -234,7 +236,7 @@ pub fn flat_len(op: &Op) -> usize {
     match op {
         Op::ACall { steps, .. } => 2 + steps.iter().map(flat_len).sum::<usize>(),
         Op::Reent { steps, .. } => 2 + steps.iter().map(flat_len).sum::<usize>(),
-        Op::Unwind { steps } => 2 + steps.iter().map(flat_len).sum::<usize>(),
+        Op::Unwind { steps, .. } => 2 + steps.iter().map(flat_len).sum::<usize>(),
         _ => 1,
     }
 }
